@@ -165,6 +165,13 @@ func init() {
 			}
 			return in.tt.UF("vh_uninterp2", in.cfg.Dom, 0, x, y), true
 		},
+		"vNLFirst": func(in *Interp, fn *ssa.Function, a []Value, s ssa.Instruction) (Value, bool) {
+			t := in.term(a[0])
+			if in.ex.solver != nil {
+				in.ex.solver.nlFirst = t.IsConst() && t.u == 1
+			}
+			return unit(), true
+		},
 		"vLeanAsserts": func(in *Interp, fn *ssa.Function, a []Value, s ssa.Instruction) (Value, bool) {
 			t := in.term(a[0])
 			in.ex.leanAsserts = t.IsConst() && t.u == 1
